@@ -114,6 +114,30 @@ CLAIMED = {
    text="Executable model of splitIntoChunks, the per-batch worker, arrival-order collection and the merge loop (coq/Model/Parallel.v); theorems in coq/Properties/C07.v (collect_any_order, chunks_partition, parallel_eq_serial as far as proved — see the file header). Tied to the code by `par` requests: texts x worker counts 1..len+2 x arrival orders forced through the add-only hook; the Go side itself compares parallel and serial results (records, blocks, line indices, errors).",
    design="§4 C07", technique="Coq proof (permutation invariance, loop invariant) over hand model; differential correspondence with forced schedules",
    note=TB + "Real goroutine scheduling and channel semantics are not modelled (results are stored by index: ~10 trusted lines). Model reflects fixes F1 and F11 (CRLF never split across chunks)."),
+ "C12": dict(
+   text="Theorems in coq/Properties/C12.v over the executable model of klog's evaluation views (coq/Model/Report.v: service.Sort, groupByDate over the "
+        "period hashes of klog/service/period, allDatesRange for --fill, the row loop with hashesAlreadyProcessed, --diff, --now; klog total; "
+        "splitIntoCurrentAndOther and the figures of klog today incl. the end-time; the prefixes of print --with-totals), for EVERY list of records with valid "
+        "dates, every aggregation (day, week, month, quarter, year), fill / diff / now flag, under the int64 guard stated exactly (sum of |minutes| + sum of "
+        "|should-totals| <= 2^63-1): the groups are a partition of the records, one group per calendar period, keyed injectively; the report is computed "
+        "(no panic) and is equal to a closed-form specification (one row per period holding exactly the records whose date lies in it); the row totals "
+        "(and should / diff columns) add up to the grand total = sum over all entries = what klog total prints; every record has exactly one row; rows are "
+        "strictly chronological; an empty row exists only with --fill and means no record lies in that period; with --fill every period between two records "
+        "has a row and no row lies outside first..last; the period key is klog's own Period() (same key <=> between since and until, via C15's period_tiles); "
+        "any sorted permutation of the records (whatever order an unstable sort leaves among equal dates) gives the same report; today = current ++ other is a "
+        "permutation, the three rows add up and equal klog total; with-totals: entry figures add up to the record figure, record figures to the total; parsed "
+        "records always carry valid dates; service.Filter keeps them, so everything holds behind any filter. Tied to the code by running the REAL command lines "
+        "(klog report / total / today / print --with-totals through klog.Run with a controlled clock) on generated files (unsorted, duplicate dates, 0-70 "
+        "records incl. >12 for pdqsort, New Year / ISO week 52/53/1, quarter ends, leap days, 0000-01-01, 9999-12-31, negative totals, open ranges with --now, "
+        "date / period / shortcut / entry-type filters), parsing the tables back into keyed rows, comparing with the extracted model, and judging the "
+        "implementation's output with an independent Python oracle (datetime / isocalendar) written from the property text.",
+   design="§4 C12", technique="Coq proof (Permutation, induction over the date list with a seen-set invariant, lia; reuse of C15 hash/period lemmas and C02 sum lemmas) "
+                             "over hand model; extracted-model-vs-Go differential correspondence through the real CLI; independent calendar oracle",
+   note=TB + "Axioms: none (Closed under the global context, 14 theorems). Go's sort.Slice (pdqsort with klog's non-strict comparator) is NOT modelled; the model "
+             "sorts by stable insertion, C12_sort_order_irrelevant shows the report cannot depend on the choice among sorted permutations, and the correspondence "
+             "(files with up to 70 records and many equal dates) checks that Go's result is one. Known findings: K12 (the first row of `report --aggregate week` "
+             "has no year label when it lies in ISO year -1: records dated 0000-01-01/02), K1-C12 (int64 overflow panics, K1 seen through the views). Tag filters "
+             "are left to C13; --chart is not modelled (it adds a column, no number)."),
  "C02": dict(
    text="Model of service.Total/ShouldTotalSum/Diff/CloseOpenRanges with safemath overflow as Crash (coq/Model/Eval.v); theorems in coq/Properties/C02.v (total_spec etc. under the exact int64 guard). Tied to the code by `klog total --diff [--now]` on conforming documents at chosen instants, compared with the model and with an independent Python evaluation of the specification's rules.",
    design="§4 C02", technique="Coq proof (list induction, lia) over hand model; differential correspondence + spec oracle",
